@@ -6,6 +6,17 @@
 //!   styled.areas <closed shape> <style>          -> C06: drawn map vs fill_area()/stroke_area() contains
 //!   styled.translate <shape> <style> dx dy       -> C07: draw / bounding_box / points / contains commute with translate
 //!
+//!   styled.bbox dotted <shape> <style>           -> C02 / C07 for a style with `StrokeStyle::Dotted` (oracle only: dotted strokes are
+//!   styled.translate dotted <shape> <style> dx dy   not modelled, the driver answers `skip`; kind `dotted-<kind>`). The dotted
+//!                                                    border is implemented for `Rectangle` only (square dots in clockwise order below
+//!                                                    a dot size of 4, circles from 4; the dot size is `stroke_width` clamped to half
+//!                                                    the shorter side of the stroke area, so widths above that half are generated on
+//!                                                    purpose). Every other primitive draws the stroke solid, but
+//!                                                    `PrimitiveStyle::fill_area` does not shrink the fill area of ANY shape for a
+//!                                                    non-solid stroke, so the pictures of circles / ellipses / rounded rectangles /
+//!                                                    sectors differ from the solid ones too; `pixels()` of a rectangle ignores the
+//!                                                    stroke style.
+//!
 //! Shapes and styles: see shapes.rs. Oracles are the property texts; classes are prefixed `Cxx:`.
 use crate::common::*;
 use crate::shapes::*;
@@ -85,6 +96,150 @@ fn paths_run<C: ColNum>(op: &str, tb: Rectangle) -> (PMap, String, PMap, PMap) {
     })
 }
 
+/// A style with a wide stroke (13..=128 px: the widths of the display-scale theorems that the grid
+/// and `random_style` never reach), mostly with a stroke colour, any alignment.
+fn wide_style(rng: &mut Rng) -> String {
+    let f = if rng.chance(1, 2) { "7" } else { "-" };
+    let s = if rng.chance(5, 6) { "9" } else { "-" };
+    let w = if rng.chance(1, 2) { *rng.pick(&[13i64, 20, 33, 34, 40, 64, 100, 128]) } else { rng.range(13, 128) };
+    format!("{} {} {} {}", f, s, w, rng.below(3))
+}
+
+/// Display-scale shape for the wide-stroke share: positions within +-900, sizes up to 120 (with a 128 px
+/// stroke the picture is up to ~380 px across; the large stroked lines / polylines / triangles are in the
+/// `thick.*` streams, where they have a model).
+fn wide_shape(rng: &mut Rng) -> String {
+    random_shape(rng, 900, 120)
+}
+
+/// Dotted styles (`dotted <shape> <style>` token strings). Rectangles: an exhaustive grid of sizes (squares, thin,
+/// 8 x 60: the dot size is clamped to half the shorter side of the stroke area) x stroke widths on both
+/// sides of that clamp and of the square-dot / round-dot switch at 4 x alignments x colour options, then
+/// seeded random display-scale ones (a quarter squares, widths up to 128); then seeded random shapes of every
+/// kind (the generator of the solid streams) with a dotted style.
+fn dotted_ops(tier: Tier, rng: &mut Rng) -> Vec<String> {
+    let quick = tier == Tier::Quick;
+    let sizes: Vec<u32> = if quick { vec![0, 1, 2, 3, 5, 8, 9, 13, 20, 60] } else { (0..=16).chain([20, 24, 40, 60]).collect() };
+    let widths: Vec<u32> = if quick { vec![1, 2, 3, 4, 5, 8, 13, 40] } else { vec![1, 2, 3, 4, 5, 6, 8, 9, 12, 16, 33] };
+    let mut v = Vec::new();
+    for &w in &sizes {
+        for &h in &sizes {
+            for &sw in &widths {
+                for a in 0..3 {
+                    for (f, st) in [("7", "9"), ("-", "9")] {
+                        v.push(format!("dotted rect -2 -1 {} {} {} {} {} {}", w, h, f, st, sw, a));
+                    }
+                }
+            }
+            // no effective stroke: fill only, transparent, width 0
+            for (f, st, sw) in [("7", "-", 3), ("-", "-", 3), ("7", "9", 0), ("-", "9", 0)] {
+                v.push(format!("dotted rect -2 -1 {} {} {} {} {} 1", w, h, f, st, sw));
+            }
+        }
+    }
+    for _ in 0..(if quick { 400 } else { 3000 }) {
+        let w = rng.range(0, 200);
+        let h = if rng.chance(1, 4) { w } else if rng.chance(1, 4) { rng.range(0, 12) } else { rng.range(0, 200) };
+        let (w, h) = if rng.chance(1, 2) { (w, h) } else { (h, w) };
+        let sw = match rng.below(4) {
+            0 => rng.range(1, 8),
+            1 => (w.min(h) / 2 + rng.range(-2, 3)).max(1),
+            _ => rng.range(1, 128),
+        };
+        let f = if rng.chance(1, 2) { "7" } else { "-" };
+        v.push(format!("dotted rect {} {} {} {} {} 9 {} {}", rng.range(-900, 900), rng.range(-900, 900), w, h, f, sw, rng.below(3)));
+    }
+    // the other primitives with a dotted style (stroke drawn solid, fill area not shrunk)
+    for _ in 0..(if quick { 400 } else { 3000 }) {
+        v.push(format!("dotted {} {}", random_shape(rng, 300, 60), random_style(rng, 24)));
+    }
+    v
+}
+
+/// `styled.bbox` / `styled.translate` for a style with a dotted stroke (`t` is positioned after `dotted`).
+fn exec_dotted(stream: &str, t: &mut Toks, op: &str, ctx: &mut Ctx) -> String {
+    use embedded_graphics::primitives::StrokeStyle;
+    let shape = Shape::parse(t);
+    let base = parse_style(t);
+    let style = PrimitiveStyleBuilder::from(&base).stroke_style(StrokeStyle::Dotted).build();
+    let kind = format!("dotted-{}", shape.kind());
+    ctx.count(&format!("{}:{}", stream, kind));
+    let transparent = style.fill_color.is_none() && (style.stroke_color.is_none() || style.stroke_width == 0);
+    // input distribution for rectangles: which dot drawing runs, and whether the stroke width was clamped
+    if let Shape::Rect(r) = &shape {
+        if style.stroke_color.is_some() && style.stroke_width > 0 {
+            let sa = Styled::new(*r, style).stroke_area();
+            let half = (sa.size.width / 2).min(sa.size.height / 2);
+            let dot = style.stroke_width.min(half);
+            ctx.count(if dot == 0 { "dotted:dot-size-0(nothing drawn)" } else if dot < 4 { "dotted:square-dots" } else { "dotted:round-dots" });
+            if style.stroke_width > half {
+                ctx.count(if dot < 4 { "dotted:width-clamped:square-dots" } else { "dotted:width-clamped:round-dots" });
+            }
+            if r.size.width == r.size.height {
+                ctx.count("dotted:square");
+            }
+        }
+    }
+    let moved = stream == "styled.translate";
+    let d = if moved { t.point() } else { Point::zero() };
+    // (map on R1, bounding box; C02: map on R2; C07: map / box of the translated shape, map / box after translate_mut)
+    let (m, bb, m2, md, bbd, mm, bbm) = with_shape!(&shape, p => {
+        let s = Styled::new(p.clone(), style);
+        let mut r1 = R1::<Rgb565>::unbounded();
+        s.draw(&mut r1).unwrap();
+        let mut r2 = R2::<Rgb565>::unbounded();
+        let mut b = R1::<Rgb565>::unbounded();
+        let mut c = R1::<Rgb565>::unbounded();
+        let sd = s.translate(d);
+        let mut sm = s.clone();
+        sm.translate_mut(d);
+        if moved {
+            sd.draw(&mut b).unwrap();
+            sm.draw(&mut c).unwrap();
+        } else {
+            s.draw(&mut r2).unwrap();
+        }
+        (r1.rec.map, s.bounding_box(), r2.rec.map, b.rec.map, sd.bounding_box(), c.rec.map, sm.bounding_box())
+    });
+    match stream {
+        "styled.bbox" => {
+            let out: Vec<_> = m.keys().filter(|(y, x)| !bb.contains(Point::new(*x, *y))).collect();
+            if !m.is_empty() || transparent {
+                ctx.nontrivial(op);
+            }
+            ctx.expect(out.is_empty(), &format!("C02:outside-bbox:{}", kind), || {
+                format!("{} of {} px outside bounding_box {} e.g. ({},{})", out.len(), m.len(), fmt_rect(&bb), out[0].1, out[0].0)
+            });
+            // the native-fill path (`fill_solid` per square dot, circle scanlines) stays inside as well
+            let out2 = m2.keys().filter(|(y, x)| !bb.contains(Point::new(*x, *y))).count();
+            ctx.expect(out2 == 0, &format!("C02:outside-bbox:{}", kind), || format!("{} px outside bounding_box {} on the native-fill target", out2, fmt_rect(&bb)));
+            if transparent {
+                ctx.count("bbox:transparent");
+                ctx.expect(m.is_empty() && m2.is_empty(), &format!("C02:transparent-draws:{}", kind), || format!("{} px drawn with a transparent style", m.len()));
+            }
+            format!("bb={} n={} h={} out={}", fmt_rect(&bb), m.len(), map_digest(&m), out.len())
+        }
+        "styled.translate" => {
+            if !m.is_empty() && d != Point::zero() {
+                ctx.nontrivial(op);
+            }
+            let want = shift_map(&m, d);
+            ctx.expect(md == want, &format!("C07:draw-not-shifted:{}", kind), || {
+                let diff = md.iter().filter(|(k, v)| want.get(k) != Some(v)).count() + want.iter().filter(|(k, v)| md.get(k) != Some(v)).count();
+                format!("{} px vs {} px, {} differing entries", md.len(), want.len(), diff)
+            });
+            ctx.expect(mm == md && bbm == bbd, &format!("C07:translate-mut-differs:{}", kind), || "translate_mut and translate differ".into());
+            if !bb.is_zero_sized() {
+                ctx.expect(bbd == Rectangle::new(bb.top_left + d, bb.size), &format!("C07:bbox-not-shifted:{}", kind), || format!("{} -> {}", fmt_rect(&bb), fmt_rect(&bbd)));
+            } else {
+                ctx.expect(bbd.is_zero_sized(), &format!("C07:bbox-not-shifted:{}", kind), || format!("{} -> {}", fmt_rect(&bb), fmt_rect(&bbd)));
+            }
+            format!("n={} h={} shifted={} bb={} bbd={}", m.len(), map_digest(&m), (md == want) as u8, fmt_rect(&bb), fmt_rect(&bbd))
+        }
+        other => panic!("dotted styles are not generated for {}", other),
+    }
+}
+
 impl Module for M {
     fn name(&self) -> &'static str {
         "styled"
@@ -92,7 +247,7 @@ impl Module for M {
     fn rule(&self) -> &'static str {
         "styled primitives: exhaustive grid of shapes (all rect/ellipse sizes 0..=N squared, circle diameters 0..=2N, rounded rectangles with equal and unequal radii, \
          all lines / selected triangles / polylines with 0..=4 vertices on a lattice crossing the axes, arcs and sectors on an angle grid) x styles \
-         (4 colour options x stroke widths x 3 alignments) x (C01: 3 target boxes, Rgb565 everywhere plus every 7th (shape, style) pair with BinaryColor / Gray8 / Rgb888 in rotation and an eighth of the random ops; C07: 6 offsets), then seeded random display-scale shapes. \
+         (4 colour options x stroke widths x 3 alignments) x (C01: 3 target boxes, Rgb565 everywhere plus every 7th (shape, style) pair with BinaryColor / Gray8 / Rgb888 in rotation and an eighth of the random ops; C07: 6 offsets), then seeded random display-scale shapes (stroke widths up to 24 / 16), then for C02 / C07 DOTTED strokes (oracle only: rectangles of all sizes of a grid incl. squares and 8 x 60 x stroke widths on both sides of the dot-size clamp and of the square / round dot switch x alignments, seeded random ones within +-900 with widths up to 128, and seeded random shapes of every other kind with a dotted style; counters dotted:*, styled.*:dotted-<kind>) and a share of wide strokes (13..=128) on shapes of every kind placed within +-900 (quick 200, thorough 2000 ops). \
          Non-trivial: the drawable paints at least one pixel (or, for C02 transparency, the style is transparent and the shape non-empty); distinct = distinct op text."
     }
 
@@ -158,6 +313,14 @@ impl Module for M {
                 for _ in 0..(2 * nrand) {
                     emit(format!("styled.bbox {} {}", random_shape(rng, 300, 90), random_style(rng, 24)));
                 }
+                // dotted strokes (oracle only)
+                for sh in dotted_ops(tier, rng) {
+                    emit(format!("styled.bbox {}", sh));
+                }
+                // a small share of wide strokes (13..=128) on display-scale shapes of every kind
+                for _ in 0..(if quick { 200 } else { 2000 }) {
+                    emit(format!("styled.bbox {} {}", wide_shape(rng), wide_style(rng)));
+                }
             }
             "C06" => {
                 for sh in &shapes {
@@ -191,6 +354,15 @@ impl Module for M {
                 for _ in 0..nrand {
                     emit(format!("styled.translate {} {} {} {}", random_shape(rng, 200, 60), random_style(rng, 16), rng.range(-300, 300), rng.range(-300, 300)));
                 }
+                // dotted strokes (oracle only), offsets rotating through the non-zero ones, every 5th random
+                for (i, sh) in dotted_ops(tier, rng).iter().enumerate() {
+                    let d = if i % 5 == 4 { (rng.range(-1000, 1000) as i32, rng.range(-1000, 1000) as i32) } else { offs[1 + i % (offs.len() - 1)] };
+                    emit(format!("styled.translate {} {} {}", sh, d.0, d.1));
+                }
+                // a small share of wide strokes (13..=128) on display-scale shapes of every kind, moved across the axes
+                for _ in 0..(if quick { 200 } else { 2000 }) {
+                    emit(format!("styled.translate {} {} {} {}", wide_shape(rng), wide_style(rng), rng.range(-1000, 1000), rng.range(-1000, 1000)));
+                }
             }
             _ => {}
         }
@@ -199,10 +371,17 @@ impl Module for M {
     fn execute(&self, op: &str, ctx: &mut Ctx) -> String {
         let mut t = Toks::new(op);
         let stream = t.str();
+        if op.split(' ').nth(1) == Some("dotted") {
+            let _ = t.str();
+            return exec_dotted(stream, &mut t, op, ctx);
+        }
         let shape = Shape::parse(&mut t);
         let style = parse_style(&mut t);
         let kind = shape.kind();
         ctx.count(&format!("{}:{}", stream, kind));
+        if style.stroke_width >= 13 && style.stroke_color.is_some() {
+            ctx.count(&format!("{}:wide-stroke(w>=13):{}", stream, kind));
+        }
         let transparent = style.fill_color.is_none() && (style.stroke_color.is_none() || style.stroke_width == 0);
         match stream {
             "styled.paths" => {
